@@ -1,8 +1,13 @@
 //! Stand-in for `bio` 2.0.3 used ONLY in /verif's Kani builds: the real crate
 //! does not compile under kani-compiler (triple_accel: `assert` is ambiguous).
-//! It offers the reader *types* ktio names.  The record source is a
-//! harness-controlled list (`feed`), so that ktio's own numbering / copy-out /
-//! statistics code can be executed; no FASTA/FASTQ parsing is modelled.
+//! It mirrors the reader API of bio::io::{fasta,fastq} that a FASTA/FASTQ
+//! consumer uses (Reader::{new,from_bufread,with_capacity,records,read},
+//! Record::{new,id,desc,seq,qual,is_empty,check,clear}, the FastaRead /
+//! FastqRead traits).  The record source is a harness-controlled list (`feed`),
+//! so that ktio's own numbering / copy-out / statistics code can be executed;
+//! NO FASTA/FASTQ parsing is modelled.  As in bio, `read` leaves the record
+//! empty at the end of the input, and a record is "empty" only if id,
+//! description and sequence are all empty (fed records always have an id).
 pub mod io {
     pub const MAX_RECS: usize = 4;
     pub const MAX_SEQ: usize = 8;
@@ -13,6 +18,7 @@ pub mod io {
     static mut FEED_IDS: [[u8; 2]; MAX_RECS] = [[0; 2]; MAX_RECS];
     static mut FEED_SEQS: [[u8; MAX_SEQ]; MAX_RECS] = [[0; MAX_SEQ]; MAX_RECS];
     static mut FEED_LENS: [usize; MAX_RECS] = [0; MAX_RECS];
+    static QUALS: [u8; MAX_SEQ] = [b'I'; MAX_SEQ];
 
     /// Harness side: the records every subsequently created reader will yield.
     pub fn feed(n: usize, ids: &[[u8; 2]], seqs: &[[u8; MAX_SEQ]], lens: &[usize]) {
@@ -37,55 +43,118 @@ pub mod io {
     }
 
     macro_rules! reader_mod {
-        ($name:ident) => {
+        ($name:ident, $trait:ident, $res:ty, $ok:expr) => {
             pub mod $name {
                 use std::io::{self, BufRead, BufReader, Read};
                 use std::marker::PhantomData;
 
+                #[derive(Debug)]
+                pub enum Error {
+                    ReadError,
+                }
+                impl std::fmt::Display for Error {
+                    fn fmt(&self, f: &mut std::fmt::Formatter<'_>) -> std::fmt::Result {
+                        f.write_str("read error")
+                    }
+                }
+                impl std::error::Error for Error {}
+
+                pub trait $trait {
+                    fn read(&mut self, record: &mut Record) -> $res;
+                }
+
                 pub struct Reader<B> {
+                    i: usize,
                     _r: PhantomData<B>,
                 }
                 impl<R: Read> Reader<BufReader<R>> {
                     pub fn new(_reader: R) -> Self {
-                        Reader { _r: PhantomData }
+                        Reader { i: 0, _r: PhantomData }
+                    }
+                    pub fn with_capacity(_capacity: usize, _reader: R) -> Self {
+                        Reader { i: 0, _r: PhantomData }
                     }
                 }
                 impl<B: BufRead> Reader<B> {
+                    pub fn from_bufread(_bufreader: B) -> Self {
+                        Reader { i: 0, _r: PhantomData }
+                    }
                     pub fn records(self) -> Records<B> {
-                        Records { i: 0, _r: PhantomData }
+                        Records { reader: self }
                     }
                 }
-                pub struct Records<B> {
-                    i: usize,
-                    _r: PhantomData<B>,
+                impl<B: BufRead> $trait for Reader<B> {
+                    fn read(&mut self, record: &mut Record) -> $res {
+                        record.clear();
+                        if self.i < super::feed_len() {
+                            record.idx = Some(self.i);
+                            self.i += 1;
+                        }
+                        $ok
+                    }
                 }
+                pub struct Records<B: BufRead> {
+                    reader: Reader<B>,
+                }
+                #[derive(Debug, Clone, Default)]
                 pub struct Record {
-                    idx: usize,
+                    idx: Option<usize>,
                 }
                 #[allow(static_mut_refs)]
                 impl Record {
+                    pub fn new() -> Self {
+                        Record { idx: None }
+                    }
+                    pub fn is_empty(&self) -> bool {
+                        self.idx.is_none()
+                    }
+                    pub fn check(&self) -> Result<(), &str> {
+                        if self.idx.is_none() {
+                            Err("Expecting id for record.")
+                        } else {
+                            Ok(())
+                        }
+                    }
+                    pub fn clear(&mut self) {
+                        self.idx = None;
+                    }
                     pub fn id(&self) -> &str {
-                        unsafe { std::str::from_utf8_unchecked(&super::FEED_IDS[self.idx]) }
+                        match self.idx {
+                            Some(i) => unsafe { std::str::from_utf8_unchecked(&super::FEED_IDS[i]) },
+                            None => "",
+                        }
+                    }
+                    pub fn desc(&self) -> Option<&str> {
+                        None
                     }
                     pub fn seq(&self) -> &[u8] {
-                        unsafe { &super::FEED_SEQS[self.idx][..super::FEED_LENS[self.idx]] }
+                        match self.idx {
+                            Some(i) => unsafe { &super::FEED_SEQS[i][..super::FEED_LENS[i]] },
+                            None => &[],
+                        }
+                    }
+                    pub fn qual(&self) -> &[u8] {
+                        match self.idx {
+                            Some(i) => unsafe { &super::QUALS[..super::FEED_LENS[i]] },
+                            None => &[],
+                        }
                     }
                 }
                 impl<B: BufRead> Iterator for Records<B> {
                     type Item = io::Result<Record>;
                     fn next(&mut self) -> Option<Self::Item> {
-                        if self.i < super::feed_len() {
-                            let r = Record { idx: self.i };
-                            self.i += 1;
-                            Some(Ok(r))
-                        } else {
+                        let mut record = Record::new();
+                        let _ = self.reader.read(&mut record);
+                        if record.is_empty() {
                             None
+                        } else {
+                            Some(Ok(record))
                         }
                     }
                 }
             }
         };
     }
-    reader_mod!(fasta);
-    reader_mod!(fastq);
+    reader_mod!(fasta, FastaRead, std::io::Result<()>, Ok(()));
+    reader_mod!(fastq, FastqRead, std::result::Result<(), Error>, Ok(()));
 }
